@@ -35,6 +35,9 @@ static hwloc_obj_t find_gp(hwloc_topology_t t, unsigned long gp) {
   return r;
 }
 static int opt_xmldigest, opt_stores, opt_udspecial;
+/* names of the distances structures and memory attributes a behaviour adds: numbered per topology; a copy goes on where its original was,
+ * so that the same call made on both gives both the same name */
+static int dcounter[8], acounter[8];
 /* option stores 2 (lazy): the distances / memattrs / cpukinds queries of the projection refresh caches inside the library, which would
  * hide an exporter that forgets to; they only start with the first xml_export event (logged after the export call itself) */
 static int xml_seen;
@@ -119,7 +122,9 @@ static void out_topos(void) {
   out("]");
   for (s = 0; s < nslots; s++) if (topo[s] && loaded[s]) tag_userdata(topo[s]);
 }
-static void ev_begin(const char *e, int s) { out("{\"e\":\"%s\",\"slot\":%d", e, s); }
+/* the text of the command after its slot: two events with the same name and the same args are the same call on two topologies */
+static char argline[8192];
+static void ev_begin(const char *e, int s) { out("{\"e\":\"%s\",\"slot\":%d,\"args\":", e, s); out_jstr(argline); }
 static void ev_end(int ret, int err) { out(",\"ret\":%d,\"errno\":\"%s\"", ret, errname(err)); out_topos(); out("}"); out_end(); }
 
 static void do_reset(char *p, int beh) {
@@ -127,6 +132,7 @@ static void do_reset(char *p, int beh) {
   for (s = 0; s < MAXSLOT; s++) { if (topo[s]) hwloc_topology_destroy(topo[s]); topo[s] = NULL; loaded[s] = 0; }
   nslots = (int)hwv_tokl(&p); if (nslots < 1) nslots = 1; if (nslots > MAXSLOT) nslots = MAXSLOT;
   opt_xmldigest = 0; opt_stores = 0; opt_udspecial = 0; xml_seen = 0;
+  memset(dcounter, 0, sizeof dcounter); memset(acounter, 0, sizeof acounter);
   unsetenv("HWLOC_FSROOT"); unsetenv("HWLOC_CPUID_PATH"); unsetenv("HWLOC_COMPONENTS"); unsetenv("HWLOC_XMLFILE"); unsetenv("HWLOC_SYNTHETIC");
   /* HWLOC_LIBXML_IMPORT / HWLOC_LIBXML_EXPORT are decided once per process by the library and are given by the caller: kept */
   unsetenv("HWLOC_THISSYSTEM"); unsetenv("HWLOC_DUMPED_HWDATA_DIR"); unsetenv("HWLOC_X86_TOPOEXT_NUMANODES"); unsetenv("HWLOC_THISSYSTEM_ALLOWED_RESOURCES"); unsetenv("HWLOC_XML_EXPORT_SUPPORT");
@@ -144,6 +150,7 @@ static void handler(char **lines, size_t n, int beh) {
       if (name && !strcmp(name, "xmldigest")) opt_xmldigest = v;
       if (name && !strcmp(name, "stores")) opt_stores = v;
       if (name && !strcmp(name, "udspecial")) opt_udspecial = v;
+      if (name && !strcmp(name, "namebase")) { int q; for (q = 0; q < MAXSLOT; q++) dcounter[q] = acounter[q] = v; }   /* first number used in generated names */
       continue;
     }
     if (!strcmp(cmd, "env")) {
@@ -154,6 +161,7 @@ static void handler(char **lines, size_t n, int beh) {
     }
     s = (int)hwv_tokl(&p);
     if (s < 0 || s >= nslots) continue;
+    snprintf(argline, sizeof argline, "%s", p);
     errno = 0;
     if (!strcmp(cmd, "init")) {
       if (topo[s]) continue;
@@ -170,6 +178,7 @@ static void handler(char **lines, size_t n, int beh) {
       if (topo[s]) continue;
       ndv = 0;
       hwloc_topology_init(&topo[s]); loaded[s] = 0;
+      { int q; for (q = 0; q < MAXSLOT; q++) { if (dcounter[q] > dcounter[s]) dcounter[s] = dcounter[q]; if (acounter[q] > acounter[s]) acounter[s] = acounter[q]; } }   /* names stay unique in what is imported */
       if (mode && !strcmp(mode, "buffer")) {
         FILE *f = fopen(path, "rb");
         if (f) { fseek(f, 0, SEEK_END); len = ftell(f); fseek(f, 0, SEEK_SET); buf = malloc((size_t)len + 1); if (fread(buf, 1, (size_t)len, f) != (size_t)len) len = 0; buf[len] = 0; fclose(f); }
@@ -321,27 +330,43 @@ static void handler(char **lines, size_t n, int beh) {
     } else if (!strcmp(cmd, "dist_add")) {
       /* dist_add S <kind> <addflags> <n> gp1..gpn v11..vnn : create + values + commit */
       unsigned long kind = (unsigned long)hwv_tokl(&p), afl = (unsigned long)hwv_tokl(&p); unsigned nb = (unsigned)hwv_tokl(&p), k;
-      hwloc_obj_t objs[16]; hwloc_uint64_t vals[256]; unsigned long gps[16]; int r1 = -1, r2 = -1; hwloc_distances_add_handle_t h;
+      hwloc_obj_t objs[16]; hwloc_uint64_t vals[256]; unsigned long gps[16]; int r1 = -1, r2 = -1; hwloc_distances_add_handle_t h; char dname[32];
       if (nb > 16) nb = 16;
       for (k = 0; k < nb; k++) { gps[k] = (unsigned long)hwv_tokl(&p); objs[k] = find_gp(topo[s], gps[k]); }
       for (k = 0; k < nb * nb; k++) vals[k] = (hwloc_uint64_t)hwv_tokl(&p);
       for (k = 0; k < nb; k++) if (!objs[k]) break;
       if (k < nb) continue;
       errno = 0;
-      h = hwloc_distances_add_create(topo[s], "hwv", kind, 0); err = errno;
+      snprintf(dname, sizeof dname, "hwv%d", dcounter[s]++);      /* every structure of a topology has its own name */
+      h = hwloc_distances_add_create(topo[s], dname, kind, 0); err = errno;
       if (h) { r1 = hwloc_distances_add_values(topo[s], h, nb, objs, vals, 0); err = errno;
                if (!r1) { r2 = hwloc_distances_add_commit(topo[s], h, afl); err = errno; } }
       ev_begin("dist_add", s); out(",\"kind\":%lu,\"addflags\":%lu,\"nb\":%u,\"create\":%d,\"values\":%d,\"commit\":%d", kind, afl, nb, h ? 0 : -1, r1, r2);
+      out(",\"name\":"); out_jstr(dname); out(",\"objs\":["); for (k = 0; k < nb; k++) out("%s%lu", k ? "," : "", gps[k]); out("]");
       ev_end(h && !r1 && !r2 ? 0 : -1, err);
     } else if (!strcmp(cmd, "dist_remove")) {
       ret = hwloc_distances_remove(topo[s]); err = errno;
       ev_begin("dist_remove", s); ev_end(ret, err);
+    } else if (!strcmp(cmd, "dist_remove_one")) {
+      /* dist_remove_one S <k> : the k-th structure (modulo their number) that hwloc_distances_get() returns is removed through its handle */
+      unsigned k = (unsigned)hwv_tokl(&p), nr = 0, i; struct hwloc_distances_s *ds[64]; char nm[64] = "";
+      ret = -1; err = 0;
+      nr = 64;
+      if (!hwloc_distances_get(topo[s], &nr, ds, 0, 0) && nr) {
+        const char *n;
+        if (nr > 64) nr = 64;
+        k %= nr;
+        n = hwloc_distances_get_name(topo[s], ds[k]); snprintf(nm, sizeof nm, "%s", n ? n : "");
+        for (i = 0; i < nr; i++) if (i != k) hwloc_distances_release(topo[s], ds[i]);
+        errno = 0; ret = hwloc_distances_release_remove(topo[s], ds[k]); err = errno;
+      } else nr = 0;
+      ev_begin("dist_remove_one", s); out(",\"k\":%u,\"nr\":%u,\"name\":", k, nr); out_jstr(nm); ev_end(ret, err);
     } else if (!strcmp(cmd, "memattr")) {
       /* memattr S <flags> <target gp> <value> : register a fresh attribute, set one value without initiator */
-      static int counter; unsigned long fl = (unsigned long)hwv_tokl(&p), gp = (unsigned long)hwv_tokl(&p); hwloc_uint64_t v = (hwloc_uint64_t)hwv_tokl(&p);
+      unsigned long fl = (unsigned long)hwv_tokl(&p), gp = (unsigned long)hwv_tokl(&p); hwloc_uint64_t v = (hwloc_uint64_t)hwv_tokl(&p);
       char name[32]; hwloc_memattr_id_t id = 0; int r1, r2 = -1; hwloc_obj_t tg = find_gp(topo[s], gp);
       if (!tg) continue;
-      snprintf(name, sizeof name, "hwvattr%d", counter++);
+      snprintf(name, sizeof name, "hwvattr%d", acounter[s]++);
       errno = 0;
       r1 = hwloc_memattr_register(topo[s], name, fl, &id); err = errno;
       if (!r1 && !(fl & HWLOC_MEMATTR_FLAG_NEED_INITIATOR)) { r2 = hwloc_memattr_set_value(topo[s], id, tg, NULL, 0, v); err = errno; }
@@ -374,6 +399,7 @@ static void handler(char **lines, size_t n, int beh) {
       if (d < 0 || d >= nslots || topo[d]) continue;
       ret = hwloc_topology_dup(&topo[d], topo[s]); err = errno;
       if (!ret) loaded[d] = 1; else topo[d] = NULL;
+      dcounter[d] = dcounter[s]; acounter[d] = acounter[s];
       ev_begin("dup", s); out(",\"dst\":%d", d); ev_end(ret, err);
     }
   }
